@@ -69,7 +69,20 @@ def answers(S, probes=PROBES, T=None):
         "box": [b.lowpt[0], b.lowpt[1], b.toppt[0], b.toppt[1]],
         "in": [bool(p in S) for p in probes],
         "in_open": [bool(S.contains_point(p, False)) for p in probes],
+        "edge_mid": _edge_mid_answers(S),
     }
+
+
+def _edge_mid_answers(S):
+    """closed / open containment of the middle points of the first two edges of every boundary curve (points that are
+    exactly on the current boundary)"""
+    out = []
+    for j in S.jordans:
+        for seg in j.segments[:2]:
+            a, b = seg.ctrlpoints[0], seg.ctrlpoints[-1]
+            m = ((a[0] + b[0]) / 2, (a[1] + b[1]) / 2)
+            out += [bool(S.contains_point(m, True)), bool(S.contains_point(m, False)), bool(m in j)]
+    return out
 
 
 def compare(a, b, formulas=None):
@@ -79,7 +92,7 @@ def compare(a, b, formulas=None):
     T = z3.BoolVal(True)
     for k in a:
         x, y = a[k], b.get(k)
-        if k in ("kind", "ccw", "in", "in_open", "has"):
+        if k in ("kind", "ccw", "in", "in_open", "has", "edge_mid"):
             if x != y:
                 bad.append(k)
                 if formulas is not None:
